@@ -83,7 +83,17 @@ bool RSModel::MoveBefore(const EntityUID what, const ListIterator iWhere) {
 }
 
 bool RSModel::SetAliasFor(const EntityUID target, const std::string& newName, const bool substitue) {
-  return NotifyAndReturn(core.SetAliasFor(target, newName, substitue));
+  if (substitue || !core.Contains(target)) {
+    return NotifyAndReturn(core.SetAliasFor(target, newName, substitue));
+  }
+  // Note: without substitution the mentions of the old name stop denoting target - their values are outdated
+  const auto dependants = core.RSLang().Graph().ExpandOutputs({ target });
+  if (!core.SetAliasFor(target, newName, substitue)) {
+    return false;
+  }
+  ResetItems(dependants, target);
+  NotifyModification();
+  return true;
 }
 
 void RSModel::ResetAliases() {
